@@ -25,6 +25,8 @@ def rsp_content(s):
 
 
 def rsp_path(s):
+    if s.get("rspnone"):
+        return ""
     return ("nodir/" if s.get("badrspdir") else "") + s["outs"][0] + ".rsp"
 
 
@@ -119,7 +121,7 @@ def render_manifest(sc, cmd, ctl):
         if s["deps"] == "msvc" and s["id"] % 2:
             m += "  deps = msvc\n"
         if s["rsp"]:
-            m += "  rspfile = %s\n  rspfile_content = %s\n" % (rsp_path(s), rsp_content(s) or "$nothing")
+            m += "  rspfile = %s\n  rspfile_content = %s\n" % (rsp_path(s) or "$norsp", rsp_content(s) or "$nothing")
     for s in sc["stmts"]:
         m += "build " + " ".join(s["outs"])
         if s["iouts"]:
@@ -687,7 +689,7 @@ class Execution:
             rspseen = ""
             if s["rsp"]:
                 try:
-                    rspseen = open(self.p(rsp_path(s))).read()
+                    rspseen = rsp_content(s) if s.get("rspnone") else open(self.p(rsp_path(s))).read()
                 except FileNotFoundError:
                     rspseen = "<no rspfile>"
                 ver += "|" + rspseen
